@@ -177,6 +177,9 @@ def run(rep, tier):
     ex = exc.ExcFlow(fb, infeasible=set(INFEASIBLE))
     rep.covered(tus=len(fb.tus), extracted=fb.extracted, functions=len(fb.funcs))
     comparator_keys(rep, fb)
+    from ..report import Renamed
+    from . import C03
+    C03.audit_rules_c03(Renamed(rep, {'R03.12': 'R02.19'}), fb)
     from . import _domain
     for cls, tag in (('uscxml::LargeMicroStep', 'LargeMicroStep'), ('uscxml::FastMicroStep', 'FastMicroStep')):
         _domain.check(rep, 'R02.10', fb, [fb.fn(cls + '::getTransitionDomain')], tag)
